@@ -113,6 +113,7 @@ func main() {
 	genRouting(*repo, *out)
 	genAddr(*repo, *out)
 	genAlias(*repo, *out)
+	genDriver(*repo, *out)
 }
 
 // ---------------------------------------------------------------------------------------------
